@@ -1,7 +1,7 @@
 """
 C13 — CDXML parsing reproduces the drawing: constitution, charges, handedness (partial).
 
-Proof:  Molli.Props.C13 — constitution_counts, join_counts, nested_counts, constitution_ignores_stereo_marks,
+Proof:  Molli.Props.C13 — constitution_counts, join_counts, join_charge_mult, join_charge_mult_neutral, nested_counts, constitution_ignores_stereo_marks,
         resolve_spec, resolve_translation_invariant, resolve_permutation_invariant, determinism, orientation_flips,
         orientation_flips_improper, orient_mirror, orient_sound; + Molli.Gen.CdxmlConsts (enum values of the live code).
 Tie:    every fragment of every bundled CDXML file, of synthetic drawings (all Order x Display x Radical x NodeType
